@@ -26,7 +26,8 @@ fn main() {
     let mut sender = RatchetSecret::init(secret(9));
     let mut keys = vec![];
     for _ in 0..(gens + 4) { let (y, g, k) = RatchetSecret::ratchet_forward(sender).unwrap(); sender = y; keys.push((g, k)); }
-    for (max_fwd, ooo) in [(100u32, 100u32), (2, 8), (8, 2), (1, 1), (3, 0)] {
+    // incl. forward distances at the top of the u32 range ("unlimited"): head + distance does not fit a u32 there
+    for (max_fwd, ooo) in [(100u32, 100u32), (2, 8), (8, 2), (1, 1), (3, 0), (u32::MAX, 3), (u32::MAX - 2, 3)] {
         for p in perms(gens) {
             let mut y = DecryptionRatchet::init(secret(9));
             // reference model: head = next generation to derive; used = handed out; a generation g < head is retained iff head - g <= ooo
